@@ -30,6 +30,18 @@ def includes():
             os.path.join(vlib.BUILD, "mtest", "include"), os.path.join(vlib.BUILD, "mfront", "include")]
 
 
+def compiler():
+    """g++ through ccache when it is installed (the cache key is the preprocessed translation unit, the flags
+    and the compiler: a changed source or header is always recompiled); plain g++ otherwise"""
+    import shutil
+    wrapper = os.path.join(vlib.VERIF, "harness", "C48", "ccxx.sh")
+    if os.environ.get("VERIF_NO_CCACHE") or not shutil.which("ccache") or not os.access(wrapper, os.X_OK):
+        return "g++"
+    os.environ.setdefault("CCACHE_DIR", os.path.join(vlib.VERIF, "work", "ccache-mtest"))
+    os.environ.setdefault("CCACHE_MAXSIZE", "4G")
+    return wrapper
+
+
 def build(ck, name, main, sources, sanitize=True, extra_includes=()):
     """compile `sources` (names under mtest/src of the current tree) and the harness `main` in parallel,
     link against the prebuilt TFEL libraries; returns the binary path"""
@@ -42,10 +54,11 @@ def build(ck, name, main, sources, sanitize=True, extra_includes=()):
     jobs = [(s + ".o", [os.path.join(vlib.REPO, "mtest", "src", s + ".cxx")]) for s in sources]
     jobs.append(("main_%s.o" % name, [main]))
     from concurrent.futures import ThreadPoolExecutor
+    cxx = compiler()
     objs = {}
     with ThreadPoolExecutor(max_workers=4) as ex:   # at most 4 parallel compiles (shared machine)
         futs = {j[0]: ex.submit(ck.cxx, j[0], j[1], flags=["-c"], includes=includes() + list(extra_includes), defines=DEFINES,
-                                sanitize=sanitize) for j in jobs}
+                                sanitize=sanitize, compiler=cxx) for j in jobs}
         for n, f in futs.items():
             objs[n] = f.result()
     empty = ck.write("empty_%s.cxx" % name, "")
